@@ -2,6 +2,7 @@ package fanspeedpb
 
 import (
 	"context"
+	"math"
 
 	"google.golang.org/grpc"
 	"google.golang.org/protobuf/proto"
@@ -39,7 +40,16 @@ func (s *ModelServer) UpdateFanSpeed(_ context.Context, request *traits.UpdateFa
 			oldVal := old.(*traits.FanSpeed)
 			newVal := new.(*traits.FanSpeed)
 			newVal.Percentage += oldVal.Percentage
-			newVal.PresetIndex += oldVal.PresetIndex
+			// add in 64 bits and stay inside int32: a huge step means "to the last/first preset" (DeriveValues
+			// caps the index), it must not wrap around to the other end
+			index := int64(newVal.PresetIndex) + int64(oldVal.PresetIndex)
+			if index > math.MaxInt32 {
+				index = math.MaxInt32
+			}
+			if index < math.MinInt32 {
+				index = math.MinInt32
+			}
+			newVal.PresetIndex = int32(index)
 			// todo: should we support setting the preset relatively if we're between presets?
 		}
 	}))
